@@ -1,15 +1,20 @@
 (* C27 -- frame audit of Checker.CheckSource (types/checker/checker.go).
 
    Gen/C27_CheckerFields.v (written by harness/cmd/c27gen from the Go AST) lists every field of
-   `type Checker struct` with five syntactic facts.  This file is the hand-maintained side: it
+   `type Checker struct` with six syntactic facts.  This file is the hand-maintained side: it
    says, for every field, WHY a rejected REPL input cannot leave a trace in it, and checks that
    the stated reason agrees with the facts read off the source.
 
      Restored          copied by CheckSource before CheckProgram and put back when the input
                        is rejected (the `if c.Errors.IsFailure()` block)
-     ResetPerInput     re-initialised for every input: assigned by CheckSource before
-                       CheckProgram, or unconditionally (re)assigned by CheckProgram / one of the
-                       passes it always runs, before the next input reads it
+     ResetBySource     re-initialised for every input by CheckSource itself: assigned at the top
+                       level of CheckSource BEFORE it calls CheckProgram (f_reset_before).  Deleting
+                       that assignment makes the audit false even when other code still assigns
+                       the field (the scope-copy caches are also cleared by every scope push/pop,
+                       but nothing else clears them between a rejected input and the next one)
+     ResetByProgram    unconditionally (re)assigned on every run of CheckProgram: by a statement at
+                       the top level of CheckProgram or of a pass it calls at its top level
+                       (f_reset_cp), before the next input reads it
      ImmutableConfig   never assigned by CheckSource or by anything reachable from CheckProgram
      AppendOnlyCache   only grows; a stale entry is harmless (or the REPL clears it itself)
      TransientBalanced saved and put back around every nested check, so it has its initial value
@@ -22,11 +27,11 @@ Import ListNotations.
 From Elk Require Import Gen.C27_CheckerFields.
 Open Scope string_scope.
 
-Inductive fclass := Restored | ResetPerInput | ImmutableConfig | AppendOnlyCache | TransientBalanced.
+Inductive fclass := Restored | ResetBySource | ResetByProgram | ImmutableConfig | AppendOnlyCache | TransientBalanced.
 
 Definition classes : list (string * fclass) := [
   (* CheckSource: `c.Filename = sourceName` *)
-  ("Filename", ResetPerInput);
+  ("Filename", ResetBySource);
   (* the list only grows during a run; the REPL calls ClearErrors after every input.
      checkMethod swaps in a temporary list and puts the previous one back *)
   ("Errors", AppendOnlyCache);
@@ -38,9 +43,9 @@ Definition classes : list (string * fclass) := [
   ("macroEnv", ImmutableConfig);
   (* CheckSource: setDefinedMacros(false); BuiltinImportsProcessed is set once and stays;
      hasDefer/generator/readonly/... are toggled around nested checks; the others are options *)
-  ("flags", ResetPerInput);
+  ("flags", ResetBySource);
   (* CheckProgram: c.phase = methodSignatureCheckPhase ... c.phase = expressionPhase *)
-  ("phase", ResetPerInput);
+  ("phase", ResetByProgram);
   (* every `c.mode = x` is paired with `c.mode = prevMode` *)
   ("mode", TransientBalanced);
   (* set in checkMethodDefinition / closures, nil-ed or put back on exit *)
@@ -51,12 +56,14 @@ Definition classes : list (string * fclass) := [
   ("selfType", Restored);
   (* constantScopesCopy := c.deepCopyConstantScopes(..); assigned back on failure *)
   ("constantScopes", Restored);
-  (* CheckSource: c.constantScopesCopyCache = nil *)
-  ("constantScopesCopyCache", ResetPerInput);
+  (* CheckSource: c.constantScopesCopyCache = nil.  The cache aliases the scopes of the environment
+     the input is checked in; after a rejection those are the DISCARDED scopes, and only a scope
+     push/pop would clear it, so the reset at the start of the next input is what makes it safe *)
+  ("constantScopesCopyCache", ResetBySource);
   (* methodScopesCopy := c.deepCopyMethodScopes(..); assigned back on failure *)
   ("methodScopes", Restored);
   (* CheckSource: c.methodScopesCopyCache = nil *)
-  ("methodScopesCopyCache", ResetPerInput);
+  ("methodScopesCopyCache", ResetBySource);
   (* pushCatchScope/popCatchScope; checkMethodDefinition saves and puts back prevCatchScopes *)
   ("catchScopes", TransientBalanced);
   (* localEnvsCopy := c.deepCopyLocalEnvs(..); c.localEnvs = localEnvsCopy on failure *)
@@ -64,32 +71,32 @@ Definition classes : list (string * fclass) := [
   (* registerLoop / popLoop *)
   ("loops", TransientBalanced);
   (* checkNamespacePlaceholders (always run by CheckProgram) ends with `= nil` *)
-  ("namespacePlaceholders", ResetPerInput);
+  ("namespacePlaceholders", ResetByProgram);
   (* checkConstantPlaceholders (always run) ends with `= nil` *)
-  ("constantPlaceholders", ResetPerInput);
+  ("constantPlaceholders", ResetByProgram);
   (* checkMethodPlaceholders (always run) ends with `= nil` *)
-  ("methodPlaceholders", ResetPerInput);
+  ("methodPlaceholders", ResetByProgram);
   (* CheckSource: c.macroChecks = nil *)
-  ("macroChecks", ResetPerInput);
+  ("macroChecks", ResetBySource);
   (* CheckSource: c.methodBodyChecks = nil *)
-  ("methodBodyChecks", ResetPerInput);
+  ("methodBodyChecks", ResetBySource);
   (* CheckSource: c.signatureChecks = ds.NewOrderedMap(..) *)
-  ("signatureChecks", ResetPerInput);
+  ("signatureChecks", ResetBySource);
   (* checkConstants (always run) ends with c.constantChecks = newConstantDefinitionChecks() *)
-  ("constantChecks", ResetPerInput);
+  ("constantChecks", ResetByProgram);
   (* checkTypeDefinitions (always run) ends with c.typeDefinitionChecks = newTypeDefinitionChecks() *)
-  ("typeDefinitionChecks", ResetPerInput);
+  ("typeDefinitionChecks", ResetByProgram);
   (* the pointer is never reassigned; entries are pushed during constant/method checks and the
      slice is emptied after each constant declaration and each method body *)
   ("methodCache", AppendOnlyCache);
   (* initExtensions (always run) ends with c.extensions = concurrent.NewSlice() *)
-  ("extensions", ResetPerInput);
+  ("extensions", ResetByProgram);
   (* c.method = m ... c.method = nil around every method/macro body *)
   ("method", TransientBalanced);
   (* CheckProgram: c.namespacesWithIvars = ds.NewOrderedMap(..); nil-ed by checkClassesWithIvars *)
-  ("namespacesWithIvars", ResetPerInput);
+  ("namespacesWithIvars", ResetByProgram);
   (* initMacroCompiler at the start of every CheckProgram *)
-  ("macroCompiler", ResetPerInput);
+  ("macroCompiler", ResetByProgram);
   (* every input chains a new main compiler onto c.compiler (initGlobalEnvCompiler:
      parent := c.compiler); the compiler of a rejected input must not become the parent of the
      next one, so CheckSource has to put the previous compiler back on failure *)
@@ -131,7 +138,8 @@ Definition saved_eff (f : field) : bool :=
 Definition consistent (f : field) (c : fclass) : bool :=
   match c with
   | Restored => saved_eff f && f_restored f
-  | ResetPerInput => (f_reset_before f || f_assigned_cp f) && negb (f_restored f)
+  | ResetBySource => f_reset_before f && negb (f_restored f)
+  | ResetByProgram => f_reset_cp f && negb (f_restored f)
   | ImmutableConfig => negb (f_assigned_cs f) && negb (f_assigned_cp f)
   | AppendOnlyCache => negb (f_restored f) && negb (f_reset_before f)
   | TransientBalanced => negb (f_restored f) && negb (f_reset_before f)
